@@ -121,6 +121,9 @@ pub enum Signer {
     ExplicitPayee,
     /// explicit payee field = payee key, but signed by another key: signature invalid
     ExplicitPayeeWrongKey,
+    /// explicit payee field = payee key, signed by the payee key, but the signature carries the
+    /// other recovery id: it verifies against the explicit key, key recovery yields another key
+    ExplicitPayeeOtherRecid,
     /// no explicit payee field, signature made over a different message by the payee key:
     /// recovers to an unrelated key; that recovered key is "the key the signature verifies against"
     RecoveredOther,
@@ -193,7 +196,7 @@ pub fn make_invoice(spec: &InvoiceSpec) -> InvoiceFacts {
         }
     }
     match spec.signer {
-        Signer::ExplicitPayee | Signer::ExplicitPayeeWrongKey => b = b.payee_pub_key(payee_pk),
+        Signer::ExplicitPayee | Signer::ExplicitPayeeWrongKey | Signer::ExplicitPayeeOtherRecid => b = b.payee_pub_key(payee_pk),
         _ => {}
     }
     let raw: RawBolt11Invoice = b.build_raw().expect("raw invoice");
@@ -202,6 +205,17 @@ pub fn make_invoice(spec: &InvoiceSpec) -> InvoiceFacts {
         Signer::Payee | Signer::ExplicitPayee => {
             let s = raw
                 .sign::<_, ()>(|h| Ok(secp.sign_ecdsa_recoverable(h, &spec.payee_sk)))
+                .unwrap();
+            (s, Some(payee_pk))
+        }
+        Signer::ExplicitPayeeOtherRecid => {
+            let s = raw
+                .sign::<_, ()>(|h| {
+                    let sig = secp.sign_ecdsa_recoverable(h, &spec.payee_sk);
+                    let (rid, bytes) = sig.serialize_compact();
+                    let other = secp256k1::ecdsa::RecoveryId::from_i32(rid.to_i32() ^ 1).unwrap();
+                    Ok(secp256k1::ecdsa::RecoverableSignature::from_compact(&bytes, other).unwrap())
+                })
                 .unwrap();
             (s, Some(payee_pk))
         }
